@@ -62,6 +62,11 @@ def universe(nk, want_fp=False):
         start += 1
 
 
+def plain_names(nk):
+    """Sorted key names without any bloom analysis (engines that have no bloom filter)."""
+    return sorted(_CAND)[:nk]
+
+
 def universe_with(nk, fps):
     """Sorted key names whose real bloom false-positive relation is exactly `fps` (None if none found)."""
     want = sorted(fps)
